@@ -55,7 +55,7 @@ class CondFlow:
             if s["k"] == "decl":
                 for v in s["vars"]:
                     if v.get("init") is not None and (v.get("ty") or "").startswith("const ") and \
-                            ("size_t" in v["ty"] or "int" in v["ty"]):
+                            ("size_t" in v["ty"] or "int" in v["ty"] or "char" in v["ty"]) and "*" not in v["ty"] and "&" not in v["ty"]:
                         ref = {"k": "ref", "kind": "local", "id": v["id"], "name": v["name"]}
                         c = cmp_norm({"k": "bin", "op": "==", "l": ref, "r": v["init"]})
                         if c:
@@ -119,4 +119,36 @@ def implies_le(facts, terms, const):
             return True
         if op == "eq" and c >= const:
             return True
+    return False
+
+
+def implied(facts, fact):
+    """Is the comparison `fact` (normal form) a consequence of the set `facts`?  Containment, weakening of
+    inequalities, and one addition / subtraction of two known equalities."""
+    if fact is None:
+        return False
+    if fact in facts:
+        return True
+    op, ts, c = fact
+    if op in ("le", "lt"):
+        return implies_le(facts, ts, c if op == "le" else c + 1)
+    if op == "eq":
+        eqs = [(t2, c2) for (o2, t2, c2) in facts if o2 == "eq"]
+        want = dict((t[1:], 1 if t[0] == "+" else -1) for t in ts)
+
+        def vec(t2, c2, sign):
+            d = dict((t[1:], sign * (1 if t[0] == "+" else -1)) for t in t2)
+            return d, sign * c2
+        for i, (ta, ca) in enumerate(eqs):
+            for (tb, cb) in eqs[i + 1:]:
+                for sa in (1, -1):
+                    for sb in (1, -1):
+                        da, ka = vec(ta, ca, sa)
+                        db, kb = vec(tb, cb, sb)
+                        tot = dict(da)
+                        for k, v in db.items():
+                            tot[k] = tot.get(k, 0) + v
+                        tot = {k: v for k, v in tot.items() if v}
+                        if tot == want and ka + kb == c:
+                            return True
     return False
